@@ -486,8 +486,9 @@ def _vmap(res, unit):
                 mutable=mut, observed=np_tree(updT.get(c)), expected=ec)
           if has_rng and oT['k']:
             kk = np.asarray(oT['k'][0])
-            kk = np.moveaxis(kk, oax if oax >= 0 else kk.ndim - 1, 0) if kk.ndim == 2 and \
-                kk.shape != (n, 2) else kk
+            # key data (2 words) stacked along the out axis: index axis first (the shape alone
+            # cannot tell the two axes apart when n == 2)
+            kk = np.moveaxis(kk, oax % kk.ndim, 0) if kk.ndim == 2 else kk
             per = [tuple(kk[i].tolist()) for i in range(n)]
             if split and len(set(per)) != n:
               V('rng-split', 'split stream: two indices received the same key', observed=per)
